@@ -92,6 +92,8 @@ pub struct Setup {
     /// nodes that additionally carry label :M (for the label-restricted measure declaration)
     pub m_label: Vec<u8>,
     pub ddl: &'static str,
+    /// a second hierarchy index declared over the same covering edge type (its name sorts before `h`)
+    pub extra_ddl: Option<&'static str>,
     /// the declaration reads stored edges parent -> child (`ON ()<-[:IS_A]-()`)
     pub reverse: bool,
     /// static :PART_OF edges (child, parent), for the declaration over two edge types
@@ -99,15 +101,17 @@ pub struct Setup {
 }
 pub fn setups() -> Vec<Setup> {
     vec![
-        Setup { name: "tree", isa: vec![(1, 0), (2, 0), (3, 1)], units: [None, Some(1), Some(2), Some(-1)], m_label: vec![], ddl: DDL, reverse: false, part_of: vec![] },
-        Setup { name: "diamond", isa: vec![(1, 0), (2, 0), (3, 1), (3, 2)], units: [Some(1), Some(2), None, Some(1)], m_label: vec![], ddl: DDL, reverse: false, part_of: vec![] },
-        Setup { name: "chain+isolated", isa: vec![(1, 0), (2, 1)], units: [Some(1), None, Some(-1), Some(2)], m_label: vec![], ddl: DDL, reverse: false, part_of: vec![] },
+        Setup { name: "tree", isa: vec![(1, 0), (2, 0), (3, 1)], units: [None, Some(1), Some(2), Some(-1)], m_label: vec![], ddl: DDL, reverse: false, extra_ddl: None, part_of: vec![] },
+        Setup { name: "diamond", isa: vec![(1, 0), (2, 0), (3, 1), (3, 2)], units: [Some(1), Some(2), None, Some(1)], m_label: vec![], ddl: DDL, reverse: false, extra_ddl: None, part_of: vec![] },
+        Setup { name: "chain+isolated", isa: vec![(1, 0), (2, 1)], units: [Some(1), None, Some(-1), Some(2)], m_label: vec![], ddl: DDL, reverse: false, extra_ddl: None, part_of: vec![] },
         // the measure is declared for label :M only, and only nodes 0 and 1 carry it
-        Setup { name: "tree+label-restricted-measure", isa: vec![(1, 0), (2, 0), (3, 1)], units: [Some(2), Some(1), Some(2), Some(-1)], m_label: vec![0, 1], ddl: DDL_LABELLED, reverse: false, part_of: vec![] },
+        Setup { name: "tree+label-restricted-measure", isa: vec![(1, 0), (2, 0), (3, 1)], units: [Some(2), Some(1), Some(2), Some(-1)], m_label: vec![0, 1], ddl: DDL_LABELLED, reverse: false, extra_ddl: None, part_of: vec![] },
         // stored edges read parent -> child: the hierarchy is the mirror image of the IS_A arrows
-        Setup { name: "tree+reversed-declaration", isa: vec![(1, 0), (2, 0), (3, 1)], units: [None, Some(1), Some(2), Some(-1)], m_label: vec![], ddl: DDL_REVERSED, reverse: true, part_of: vec![] },
+        Setup { name: "tree+reversed-declaration", isa: vec![(1, 0), (2, 0), (3, 1)], units: [None, Some(1), Some(2), Some(-1)], m_label: vec![], ddl: DDL_REVERSED, reverse: true, extra_ddl: None, part_of: vec![] },
+        // two indexes over the same covering edge type: a write to it must make BOTH unusable
+        Setup { name: "tree+second-index-on-the-same-edge-type", isa: vec![(1, 0), (2, 0), (3, 1)], units: [None, Some(1), Some(2), Some(-1)], m_label: vec![], ddl: DDL, reverse: false, extra_ddl: Some("CREATE HIERARCHY INDEX a_extent ON ()-[:IS_A]->()"), part_of: vec![] },
         // the covering relation is IS_A and PART_OF together; the queries walk IS_A only
-        Setup { name: "tree+two-edge-types", isa: vec![(1, 0), (2, 0)], units: [None, Some(1), Some(2), Some(-1)], m_label: vec![], ddl: DDL_TWO_TYPES, reverse: false, part_of: vec![(3, 1)] },
+        Setup { name: "tree+two-edge-types", isa: vec![(1, 0), (2, 0)], units: [None, Some(1), Some(2), Some(-1)], m_label: vec![], ddl: DDL_TWO_TYPES, reverse: false, extra_ddl: None, part_of: vec![(3, 1)] },
     ]
 }
 
@@ -274,6 +278,9 @@ fn build_store(s: &Setup, with_index: bool) -> (GraphStore, HashMap<u8, NodeId>)
     }
     if with_index {
         run_mut(&mut g, s.ddl).expect("CREATE HIERARCHY INDEX");
+        if let Some(x) = s.extra_ddl {
+            run_mut(&mut g, x).expect("second CREATE HIERARCHY INDEX");
+        }
     }
     (g, ids)
 }
@@ -305,7 +312,8 @@ pub fn shapes() -> Vec<(&'static str, &'static str, bool)> {
 
 impl M {
     fn usable(g: &GraphStore) -> bool {
-        g.hierarchy_index.usable_named("h").is_some()
+        // any declared index over the covering relation counts (setups with a second index name it a_extent)
+        g.hierarchy_index.usable_named("h").is_some() || g.hierarchy_index.usable_named("a_extent").is_some()
     }
 }
 
